@@ -92,3 +92,10 @@ Definition hexagons_spec (R : Z) (start : chip) (out : list chip) : Prop :=
   NoDup out /\
   (forall p, In p out <-> within start p R) /\
   nondecreasing_by (is_mesh_distance start) out.
+
+(* ---- the contract of random.randint(lo, hi) *)
+Definition randint_contract (rint : Z -> Z -> Z) : Prop :=
+  forall lo hi, lo <= hi -> lo <= rint lo hi <= hi.
+
+(* width / height arguments of longest_dimension_first: None (no wrapping) or a positive size *)
+Definition size_ok (m : option Z) : Prop := match m with None => True | Some w => 1 <= w end.
